@@ -1,107 +1,1272 @@
-// temporary probe (replaced by the real harness)
-use grafeo_core::graph::rdf::{Term, Triple};
+//! C13 — RDF triple store and SPARQL core.
+//!
+//! (1) operation sequences on the real `RdfStore` (both configurations), every accessor after
+//!     every operation, printed as a trace the Coq model replays (`chk_store`);
+//! (2) generated SPARQL core queries / INSERT DATA / DELETE DATA through
+//!     `GrafeoDB::execute_sparql`, printed for the engine model (`chk_select`, `chk_update`);
+//!     the W3C oracle (`spec_select`, `spec_update`) and the finding classes are evaluated in
+//!     Coq by checks/c13.py on the same arguments.
+use grafeo_common::types::{TxId, Value};
+use grafeo_core::graph::rdf::{RdfStore, RdfStoreConfig, Term, Triple, TriplePattern};
 use grafeo_engine::GrafeoDB;
+use gv_harness::*;
+use std::collections::{BTreeMap, BTreeSet};
 
-fn show(db: &GrafeoDB, q: &str) {
-    match db.execute_sparql(q) {
-        Ok(r) => {
-            println!("Q: {}\n   cols={:?} nrows={}", q, r.columns, r.rows.len());
-            for row in &r.rows {
-                println!("     {:?}", row);
-            }
+const XSD_STRING: &str = "http://www.w3.org/2001/XMLSchema#string";
+const XSD_INTEGER: &str = "http://www.w3.org/2001/XMLSchema#integer";
+const XSD_DATE: &str = "http://www.w3.org/2001/XMLSchema#date";
+const RDF_LANG: &str = "http://www.w3.org/1999/02/22-rdf-syntax-ns#langString";
+
+// ------------------------------------------------------------------------------------ terms
+
+#[derive(Clone, PartialEq, Eq, Hash, Debug, PartialOrd, Ord)]
+enum T {
+    Iri(String),
+    Blank(String),
+    Lit(String, String, Option<String>),
+}
+
+impl T {
+    fn plain(s: &str) -> T {
+        T::Lit(s.into(), XSD_STRING.into(), None)
+    }
+    fn int(s: &str) -> T {
+        T::Lit(s.into(), XSD_INTEGER.into(), None)
+    }
+    fn lang(s: &str, l: &str) -> T {
+        T::Lit(s.into(), RDF_LANG.into(), Some(l.into()))
+    }
+    fn typed(s: &str, d: &str) -> T {
+        T::Lit(s.into(), d.into(), None)
+    }
+    fn iri(s: &str) -> T {
+        T::Iri(format!("http://e/{}", s))
+    }
+    fn to_term(&self) -> Term {
+        match self {
+            T::Iri(s) => Term::iri(s.as_str()),
+            T::Blank(s) => Term::blank(s.as_str()),
+            T::Lit(v, d, None) if d == XSD_STRING => Term::literal(v.as_str()),
+            T::Lit(v, d, None) => Term::typed_literal(v.as_str(), d.as_str()),
+            T::Lit(v, d, Some(l)) if d == RDF_LANG => Term::lang_literal(v.as_str(), l.as_str()),
+            // a language tag with another datatype cannot be built through the public API
+            T::Lit(v, _, Some(l)) => Term::lang_literal(v.as_str(), l.as_str()),
         }
-        Err(e) => println!("Q: {}\n   ERR {:?}", q, e),
+    }
+    fn from_term(t: &Term) -> T {
+        match t {
+            Term::Iri(i) => T::Iri(i.as_str().to_string()),
+            Term::BlankNode(b) => T::Blank(b.id().to_string()),
+            Term::Literal(l) => T::Lit(l.value().to_string(), l.datatype().to_string(), l.language().map(|x| x.to_string())),
+        }
+    }
+    fn coq(&self) -> String {
+        match self {
+            T::Iri(s) => format!("(Iri {})", coq::str_bytes(s)),
+            T::Blank(s) => format!("(Blank {})", coq::str_bytes(s)),
+            T::Lit(v, d, None) if d == XSD_STRING => format!("(lit_plain {})", coq::str_bytes(v)),
+            T::Lit(v, d, None) if d == XSD_INTEGER => format!("(lit_int {})", coq::str_bytes(v)),
+            T::Lit(v, d, Some(l)) if d == RDF_LANG => format!("(lit_lang {} {})", coq::str_bytes(v), coq::str_bytes(l)),
+            T::Lit(v, d, l) => format!(
+                "(Lit {} {} {})",
+                coq::str_bytes(v),
+                coq::str_bytes(d),
+                coq::opt(l.as_ref().map(|x| coq::str_bytes(x)))
+            ),
+        }
+    }
+    fn sparql(&self) -> String {
+        fn esc(s: &str) -> String {
+            s.replace('\\', "\\\\").replace('"', "\\\"")
+        }
+        match self {
+            T::Iri(s) => format!("<{}>", s),
+            T::Blank(s) => format!("_:{}", s),
+            T::Lit(v, d, None) if d == XSD_STRING => format!("\"{}\"", esc(v)),
+            T::Lit(v, d, None) => format!("\"{}\"^^<{}>", esc(v), d),
+            T::Lit(v, _, Some(l)) => format!("\"{}\"@{}", esc(v), l),
+        }
+    }
+    fn show(&self) -> String {
+        match self {
+            T::Iri(s) => format!("<{}>", s.trim_start_matches("http://e/")),
+            T::Blank(s) => format!("_:{}", s),
+            T::Lit(v, d, None) if d == XSD_STRING => format!("{:?}", v),
+            T::Lit(v, d, None) => format!("{:?}^^{}", v, d.rsplit('#').next().unwrap_or(d)),
+            T::Lit(v, _, Some(l)) => format!("{:?}@{}", v, l),
+        }
     }
 }
 
-fn main() {
+type IT = (usize, usize, usize);
+
+struct Uni {
+    terms: Vec<T>,
+}
+impl Uni {
+    fn idx(&self, t: &T) -> i64 {
+        self.terms.iter().position(|x| x == t).map(|x| x as i64).unwrap_or(-1)
+    }
+    fn triple(&self, t: IT) -> Triple {
+        Triple::new_unchecked(self.terms[t.0].to_term(), self.terms[t.1].to_term(), self.terms[t.2].to_term())
+    }
+    fn it_of(&self, t: &Triple) -> (i64, i64, i64) {
+        (self.idx(&T::from_term(t.subject())), self.idx(&T::from_term(t.predicate())), self.idx(&T::from_term(t.object())))
+    }
+    fn coq(&self) -> String {
+        coq::list(self.terms.iter().map(|t| t.coq()))
+    }
+    fn show_it(&self, t: IT) -> String {
+        format!("({} {} {})", self.terms[t.0].show(), self.terms[t.1].show(), self.terms[t.2].show())
+    }
+}
+
+fn it_coq(t: IT) -> String {
+    format!("({},{},{})", t.0, t.1, t.2)
+}
+fn it_coq_i(t: (i64, i64, i64)) -> String {
+    format!("({},{},{})", t.0, t.1, t.2)
+}
+fn canon(u: &Uni, l: &[std::sync::Arc<Triple>]) -> String {
+    let mut v: Vec<(i64, i64, i64)> = l.iter().map(|t| u.it_of(t)).collect();
+    v.sort();
+    coq::list(v.into_iter().map(it_coq_i))
+}
+fn canon_terms(u: &Uni, l: &[Term]) -> String {
+    let mut v: Vec<i64> = l.iter().map(|t| u.idx(&T::from_term(t))).collect();
+    v.sort();
+    coq::list(v.into_iter().map(|x| x.to_string()))
+}
+
+// ------------------------------------------------------------------------------------ store traces
+
+fn gen_store_universe(r: &mut Rng) -> Uni {
+    // terms whose equality is delicate: same lexical form with different kind / datatype / language
+    let pool: Vec<T> = vec![
+        T::iri("a"), T::iri("b"), T::iri("c"), T::iri("p"), T::iri("q"), T::Iri("urn:x".into()), T::Iri("".into()),
+        T::Blank("b0".into()), T::Blank("a".into()), T::Blank("".into()),
+        T::plain("x"), T::plain(""), T::plain("a"), T::plain("http://e/a"), T::plain("5"), T::plain("é\u{1F600}"), T::plain("x\"y\\z"),
+        T::int("5"), T::int("05"), T::int("x"),
+        T::lang("x", "en"), T::lang("x", "de"), T::lang("", "en"),
+        T::typed("x", RDF_LANG), T::typed("x", XSD_DATE), T::typed("5", XSD_STRING), T::typed("x", ""),
+    ];
+    let n = 3 + r.below(7) as usize;
+    let mut terms: Vec<T> = Vec::new();
+    // always some IRIs so that valid triples exist
+    terms.push(T::iri("a"));
+    terms.push(T::iri("p"));
+    while terms.len() < n {
+        let t = r.pick(&pool).clone();
+        if !terms.contains(&t) {
+            terms.push(t);
+        }
+    }
+    Uni { terms }
+}
+
+fn gen_it(r: &mut Rng, u: &Uni, strict: bool) -> IT {
+    let n = u.terms.len();
+    if !strict {
+        return (r.below(n as u64) as usize, r.below(n as u64) as usize, r.below(n as u64) as usize);
+    }
+    // RDF-valid positions: subject IRI/blank, predicate IRI
+    let subs: Vec<usize> = (0..n).filter(|&i| !matches!(u.terms[i], T::Lit(..))).collect();
+    let preds: Vec<usize> = (0..n).filter(|&i| matches!(u.terms[i], T::Iri(..))).collect();
+    (*r.pick(&subs), *r.pick(&preds), r.below(n as u64) as usize)
+}
+
+fn pat_of(u: &Uni, s: Option<usize>, p: Option<usize>, o: Option<usize>) -> TriplePattern {
+    TriplePattern {
+        subject: s.map(|i| u.terms[i].to_term()),
+        predicate: p.map(|i| u.terms[i].to_term()),
+        object: o.map(|i| u.terms[i].to_term()),
+    }
+}
+
+fn snapshot(u: &Uni, st: &RdfStore, probes: &[IT], txs: &[u64]) -> String {
+    let stats = st.stats();
+    let n = u.terms.len();
+    let ws = coq::list((0..n).map(|i| canon(u, &st.triples_with_subject(&u.terms[i].to_term()))));
+    let wp = coq::list((0..n).map(|i| canon(u, &st.triples_with_predicate(&u.terms[i].to_term()))));
+    let wo = coq::list((0..n).map(|i| canon(u, &st.triples_with_object(&u.terms[i].to_term()))));
+    let mut finds = Vec::new();
+    for &(a, b, c) in probes {
+        let shapes = [
+            (None, None, None), (Some(a), None, None), (None, Some(b), None), (None, None, Some(c)),
+            (Some(a), Some(b), None), (Some(a), None, Some(c)), (None, Some(b), Some(c)), (Some(a), Some(b), Some(c)),
+        ];
+        for (s, p, o) in shapes {
+            finds.push(canon(u, &st.find(&pat_of(u, s, p, o))));
+        }
+    }
+    let conts = coq::list(probes.iter().map(|&t| coq::b(st.contains(&u.triple(t)))));
+    let pend = coq::list(txs.iter().map(|&tx| {
+        let id = TxId::new(tx);
+        let mut l = vec![canon(u, &st.find_with_pending(&pat_of(u, None, None, None), Some(id)))];
+        for &(a, b, c) in probes {
+            l.push(canon(u, &st.find_with_pending(&pat_of(u, Some(a), None, None), Some(id))));
+            l.push(canon(u, &st.find_with_pending(&pat_of(u, Some(a), Some(b), Some(c)), Some(id))));
+            l.push(canon(u, &st.find_with_pending(&pat_of(u, None, Some(b), None), None)));
+        }
+        format!("({}, {})", coq::b(st.has_pending_ops(id)), coq::list(l))
+    }));
+    format!(
+        "(Snap {} {} {} {} {} {} ({},{},{},{}) {} {} {} {} {} {})",
+        st.len(),
+        coq::b(st.is_empty()),
+        canon(u, &st.triples()),
+        canon_terms(u, &st.subjects()),
+        canon_terms(u, &st.predicates()),
+        canon_terms(u, &st.objects()),
+        stats.triple_count, stats.subject_count, stats.predicate_count, stats.object_count,
+        ws, wp, wo,
+        coq::list(finds),
+        conts,
+        pend
+    )
+}
+
+#[derive(Clone, Debug)]
+enum SOp {
+    Insert(IT),
+    Remove(IT),
+    Clear,
+    InsertTx(u64, IT),
+    RemoveTx(u64, IT),
+    Commit(u64),
+    Rollback(u64),
+}
+
+fn run_store_case(r: &mut Rng, out: &mut Out, cfg: bool, u: Uni, ops: Vec<SOp>, tag: &str) {
+    let st = RdfStore::with_config(RdfStoreConfig { initial_capacity: 16, index_objects: cfg });
+    let mut tr: Vec<String> = Vec::new();
+    let mut txs: Vec<u64> = Vec::new();
+    let mut seen: BTreeSet<IT> = BTreeSet::new();
+    let mut present: BTreeSet<IT> = BTreeSet::new();
+    let (mut dup_ins, mut absent_rm, mut eff_rm, mut clears, mut commits) = (0, 0, 0, 0, 0);
+    let mut human = Vec::new();
+    // a probe of the fresh store first
+    let p0 = gen_it(r, &u, true);
+    tr.push(format!("(TProbe {} [], OS {})", coq::list([it_coq(p0)]), snapshot(&u, &st, &[p0], &[])));
+    for op in &ops {
+        let mut probe: Vec<IT> = Vec::new();
+        match op {
+            SOp::Insert(t) => {
+                let b = st.insert(u.triple(*t));
+                if present.contains(t) { dup_ins += 1; }
+                present.insert(*t);
+                seen.insert(*t);
+                tr.push(format!("(TInsert {}, OB {})", it_coq(*t), coq::b(b)));
+                human.push(format!("ins{}={}", u.show_it(*t), b));
+                probe.push(*t);
+            }
+            SOp::Remove(t) => {
+                let b = st.remove(&u.triple(*t));
+                if present.remove(t) { eff_rm += 1; } else { absent_rm += 1; }
+                tr.push(format!("(TRemove {}, OB {})", it_coq(*t), coq::b(b)));
+                human.push(format!("rm{}={}", u.show_it(*t), b));
+                probe.push(*t);
+            }
+            SOp::Clear => {
+                st.clear();
+                present.clear();
+                clears += 1;
+                tr.push("(TClear, OU)".to_string());
+                human.push("clear".into());
+            }
+            SOp::InsertTx(tx, t) => {
+                st.insert_in_tx(TxId::new(*tx), u.triple(*t));
+                if !txs.contains(tx) { txs.push(*tx); }
+                seen.insert(*t);
+                tr.push(format!("(TInsertTx {} {}, OU)", tx, it_coq(*t)));
+                human.push(format!("tx{}+{}", tx, u.show_it(*t)));
+                probe.push(*t);
+            }
+            SOp::RemoveTx(tx, t) => {
+                st.remove_in_tx(TxId::new(*tx), u.triple(*t));
+                if !txs.contains(tx) { txs.push(*tx); }
+                tr.push(format!("(TRemoveTx {} {}, OU)", tx, it_coq(*t)));
+                human.push(format!("tx{}-{}", tx, u.show_it(*t)));
+                probe.push(*t);
+            }
+            SOp::Commit(tx) => {
+                let n = st.commit_tx(TxId::new(*tx));
+                commits += 1;
+                tr.push(format!("(TCommit {}, ON {})", tx, n));
+                human.push(format!("commit{}={}", tx, n));
+            }
+            SOp::Rollback(tx) => {
+                let n = st.rollback_tx(TxId::new(*tx));
+                tr.push(format!("(TRollback {}, ON {})", tx, n));
+                human.push(format!("rollback{}={}", tx, n));
+            }
+        }
+        // every accessor after every operation
+        let extra = if !seen.is_empty() && r.chance(2, 3) {
+            let v: Vec<IT> = seen.iter().cloned().collect();
+            *r.pick(&v)
+        } else {
+            gen_it(r, &u, false)
+        };
+        probe.push(extra);
+        txs.sort();
+        tr.push(format!(
+            "(TProbe {} {}, OS {})",
+            coq::list(probe.iter().map(|&t| it_coq(t))),
+            coq::list(txs.iter().map(|t| t.to_string())),
+            snapshot(&u, &st, &probe, &txs)
+        ));
+    }
+    let args = format!("{} {} {}", coq::b(cfg), u.coq(), coq::list(tr));
+    out.emit(&Case {
+        kind: "store".into(),
+        input: format!("cfg={} U={:?} ops={}", cfg, u.terms.iter().map(|t| t.show()).collect::<Vec<_>>(), human.join(" ")),
+        coq: Some(format!("chk_store {}", args)),
+        show: Some(format!("show_store {}", args)),
+        oracle: Oracle::Na, // decided in Coq (oracle_store) by checks/c13.py
+        nontrivial: dup_ins > 0 || eff_rm > 0 || absent_rm > 0,
+        imp: format!("final len={} stats={:?}", st.len(), st.stats()),
+        tags: vec![
+            format!("store:{}", tag),
+            format!("store:cfg={}", cfg),
+            format!("store:ops={}", match ops.len() { 0 => "0", 1..=5 => "1-5", 6..=15 => "6-15", 16..=30 => "16-30", _ => "31-40" }),
+            format!("store:dup-insert={}", dup_ins.min(3)),
+            format!("store:absent-remove={}", absent_rm.min(3)),
+            format!("store:effective-remove={}", eff_rm.min(3)),
+            format!("store:clear={}", clears.min(2)),
+            format!("store:commit={}", commits.min(2)),
+        ],
+        ..Default::default()
+    });
+}
+
+fn case_store(r: &mut Rng, out: &mut Out) {
+    let cfg = r.chance(1, 2);
+    let u = gen_store_universe(r);
+    let nops = match r.below(10) {
+        0 => 1 + r.below(3),
+        1 => 38 + r.below(3),
+        _ => 1 + r.below(40),
+    } as usize;
+    // a small pool of triples so that duplicates and removals of present triples are frequent
+    let strict = r.chance(3, 4);
+    let pool: Vec<IT> = (0..(2 + r.below(7))).map(|_| gen_it(r, &u, strict)).collect();
+    let with_tx = r.chance(1, 2);
+    let mut ops = Vec::new();
+    for _ in 0..nops {
+        let t = if r.chance(9, 10) { *r.pick(&pool) } else { gen_it(r, &u, strict) };
+        let k = r.below(100);
+        let op = if k < 45 {
+            SOp::Insert(t)
+        } else if k < 72 {
+            SOp::Remove(t)
+        } else if k < 76 {
+            SOp::Clear
+        } else if !with_tx {
+            if k < 90 { SOp::Insert(t) } else { SOp::Remove(t) }
+        } else if k < 84 {
+            SOp::InsertTx(1 + r.below(3), t)
+        } else if k < 90 {
+            SOp::RemoveTx(1 + r.below(3), t)
+        } else if k < 96 {
+            SOp::Commit(1 + r.below(3))
+        } else {
+            SOp::Rollback(1 + r.below(3))
+        };
+        ops.push(op);
+    }
+    run_store_case(r, out, cfg, u, ops, if with_tx { "random+tx" } else { "random" });
+}
+
+fn corpus_store(r: &mut Rng, out: &mut Out) {
+    // the delicate equalities in one universe; insert/duplicate/remove/remove-again on each
+    let u = || Uni {
+        terms: vec![
+            T::iri("a"), T::iri("p"), T::plain("x"), T::lang("x", "en"), T::lang("x", "de"), T::int("x"),
+            T::typed("x", RDF_LANG), T::plain("http://e/a"), T::Blank("a".into()),
+        ],
+    };
+    for cfg in [true, false] {
+        let mut ops = Vec::new();
+        for o in [2usize, 3, 4, 5, 6, 7, 8, 0] {
+            ops.push(SOp::Insert((0, 1, o)));
+            ops.push(SOp::Insert((0, 1, o)));
+        }
+        for o in [3usize, 3, 7, 2, 8] {
+            ops.push(SOp::Remove((0, 1, o)));
+        }
+        ops.push(SOp::Clear);
+        ops.push(SOp::Insert((8, 1, 0)));
+        ops.push(SOp::Remove((0, 1, 8)));
+        run_store_case(r, out, cfg, u(), ops, "corpus-equalities");
+        // transaction buffers: insert then delete of the same triple in one tx, duplicate of a
+        // committed triple, commit order, rollback
+        let ops = vec![
+            SOp::Insert((0, 1, 2)),
+            SOp::InsertTx(1, (0, 1, 2)),
+            SOp::InsertTx(1, (0, 1, 3)),
+            SOp::RemoveTx(1, (0, 1, 3)),
+            SOp::RemoveTx(2, (0, 1, 2)),
+            SOp::InsertTx(2, (0, 1, 4)),
+            SOp::Commit(1),
+            SOp::Rollback(2),
+            SOp::Commit(2),
+            SOp::RemoveTx(3, (0, 1, 2)),
+            SOp::InsertTx(3, (0, 1, 2)),
+            SOp::Commit(3),
+        ];
+        run_store_case(r, out, cfg, u(), ops, "corpus-tx");
+    }
+}
+
+// ------------------------------------------------------------------------------------ SPARQL core
+
+#[derive(Clone, Debug)]
+enum Pos {
+    Var(usize),
+    Const(T),
+}
+#[derive(Clone, Debug)]
+struct Tp(Pos, Pos, Pos);
+#[derive(Clone, Debug)]
+enum Ex {
+    Var(usize),
+    Const(T),
+    Cmp(&'static str, Box<Ex>, Box<Ex>),
+    And(Box<Ex>, Box<Ex>),
+    Or(Box<Ex>, Box<Ex>),
+    Not(Box<Ex>),
+    Bound(usize),
+}
+#[derive(Clone, Debug)]
+enum Pat {
+    Bgp(Vec<Tp>),
+    Join(Box<Pat>, Box<Pat>),
+    Opt(Box<Pat>, Box<Pat>, Option<Ex>),
+    Filter(Ex, Box<Pat>),
+    Union(Box<Pat>, Box<Pat>),
+}
+#[derive(Clone, Debug)]
+enum Proj {
+    Star,
+    Vars(Vec<usize>),
+    Count,
+}
+#[derive(Clone, Debug)]
+struct Query {
+    distinct: bool,
+    proj: Proj,
+    pat: Pat,
+    order: Vec<(usize, bool)>,
+    offset: Option<usize>,
+    limit: Option<usize>,
+}
+
+fn pos_sparql(p: &Pos) -> String {
+    match p {
+        Pos::Var(v) => format!("?v{}", v),
+        Pos::Const(t) => t.sparql(),
+    }
+}
+fn pos_coq(p: &Pos, u: &Uni) -> String {
+    match p {
+        Pos::Var(v) => format!("(TVar {})", coq::nat(*v)),
+        Pos::Const(t) => format!("(TConst (un U {}))", u.idx(t)),
+    }
+}
+fn tps_sparql(tps: &[Tp]) -> String {
+    tps.iter().map(|t| format!("{} {} {}", pos_sparql(&t.0), pos_sparql(&t.1), pos_sparql(&t.2))).collect::<Vec<_>>().join(" . ")
+}
+fn ex_sparql(e: &Ex) -> String {
+    match e {
+        Ex::Var(v) => format!("?v{}", v),
+        Ex::Const(t) => t.sparql(),
+        Ex::Cmp(o, a, b) => format!("({} {} {})", ex_sparql(a), o, ex_sparql(b)),
+        Ex::And(a, b) => format!("({} && {})", ex_sparql(a), ex_sparql(b)),
+        Ex::Or(a, b) => format!("({} || {})", ex_sparql(a), ex_sparql(b)),
+        Ex::Not(a) => format!("(!{})", ex_sparql(a)),
+        Ex::Bound(v) => format!("BOUND(?v{})", v),
+    }
+}
+fn ex_coq(e: &Ex, u: &Uni) -> String {
+    match e {
+        Ex::Var(v) => format!("(EVar {})", coq::nat(*v)),
+        Ex::Const(t) => format!("(EConst (un U {}))", u.idx(t)),
+        Ex::Cmp(o, a, b) => {
+            let c = match *o { "=" => "CEq", "!=" => "CNe", "<" => "CLt", "<=" => "CLe", ">" => "CGt", _ => "CGe" };
+            format!("(ECmp {} {} {})", c, ex_coq(a, u), ex_coq(b, u))
+        }
+        Ex::And(a, b) => format!("(EAnd {} {})", ex_coq(a, u), ex_coq(b, u)),
+        Ex::Or(a, b) => format!("(EOr {} {})", ex_coq(a, u), ex_coq(b, u)),
+        Ex::Not(a) => format!("(ENot {})", ex_coq(a, u)),
+        Ex::Bound(v) => format!("(EBound {})", coq::nat(*v)),
+    }
+}
+fn paren(e: &Ex) -> String {
+    let s = ex_sparql(e);
+    if s.starts_with('(') { s } else { format!("({})", s) }
+}
+/// canonical rendering: every sub-pattern is its own group; a BGP is inlined (and a filter put
+/// before or after it) where that is equivalent both for the W3C translation and for the
+/// translator.  Never a '.' after '}' (the parser does not terminate on it).
+fn group(p: &Pat, r: &mut Rng) -> String {
+    match p {
+        Pat::Bgp(tps) => format!("{{ {} }}", tps_sparql(tps)),
+        Pat::Join(a, b) => format!("{{ {} {} }}", group(a, r), group(b, r)),
+        Pat::Union(a, b) => format!("{{ {} UNION {} }}", group(a, r), group(b, r)),
+        Pat::Opt(a, b, c) => {
+            let left = match &**a {
+                Pat::Bgp(tps) if r.chance(2, 3) => tps_sparql(tps),
+                _ => group(a, r),
+            };
+            let inner = match (&**b, c) {
+                (Pat::Bgp(tps), None) => format!("{{ {} }}", tps_sparql(tps)),
+                (Pat::Bgp(tps), Some(e)) if r.chance(2, 3) => format!("{{ {} FILTER{} }}", tps_sparql(tps), paren(e)),
+                (_, None) => group(b, r),
+                (_, Some(e)) => format!("{{ {} FILTER{} }}", group(b, r), paren(e)),
+            };
+            format!("{{ {} OPTIONAL {} }}", left, inner)
+        }
+        Pat::Filter(e, a) => match &**a {
+            Pat::Bgp(tps) if r.chance(2, 3) => {
+                if r.chance(1, 4) {
+                    format!("{{ FILTER{} {} }}", paren(e), tps_sparql(tps))
+                } else {
+                    format!("{{ {} FILTER{} }}", tps_sparql(tps), paren(e))
+                }
+            }
+            _ => format!("{{ {} FILTER{} }}", group(a, r), paren(e)),
+        },
+    }
+}
+fn pat_coq(p: &Pat, u: &Uni) -> String {
+    match p {
+        Pat::Bgp(tps) => format!(
+            "(PBgp {})",
+            coq::list(tps.iter().map(|t| format!("(TPat {} {} {})", pos_coq(&t.0, u), pos_coq(&t.1, u), pos_coq(&t.2, u))))
+        ),
+        Pat::Join(a, b) => format!("(PJoin {} {})", pat_coq(a, u), pat_coq(b, u)),
+        Pat::Union(a, b) => format!("(PUnion {} {})", pat_coq(a, u), pat_coq(b, u)),
+        Pat::Opt(a, b, c) => format!("(POpt {} {} {})", pat_coq(a, u), pat_coq(b, u), coq::opt(c.as_ref().map(|e| ex_coq(e, u)))),
+        Pat::Filter(e, a) => format!("(PFilter {} {})", ex_coq(e, u), pat_coq(a, u)),
+    }
+}
+fn query_sparql(q: &Query, r: &mut Rng) -> String {
+    let mut s = String::from("SELECT ");
+    if q.distinct {
+        s.push_str("DISTINCT ");
+    }
+    match &q.proj {
+        Proj::Star => s.push('*'),
+        Proj::Vars(vs) => s.push_str(&vs.iter().map(|v| format!("?v{}", v)).collect::<Vec<_>>().join(" ")),
+        Proj::Count => s.push_str("(COUNT(*) AS ?c)"),
+    }
+    s.push_str(" WHERE ");
+    s.push_str(&group(&q.pat, r));
+    if !q.order.is_empty() {
+        s.push_str(" ORDER BY");
+        for (v, d) in &q.order {
+            if *d { s.push_str(&format!(" DESC(?v{})", v)); } else { s.push_str(&format!(" ?v{}", v)); }
+        }
+    }
+    // both orders of the two clauses are legal
+    match (q.limit, q.offset) {
+        (Some(l), Some(o)) => {
+            if r.chance(1, 2) { s.push_str(&format!(" LIMIT {} OFFSET {}", l, o)); } else { s.push_str(&format!(" OFFSET {} LIMIT {}", o, l)); }
+        }
+        (Some(l), None) => s.push_str(&format!(" LIMIT {}", l)),
+        (None, Some(o)) => s.push_str(&format!(" OFFSET {}", o)),
+        _ => {}
+    }
+    s
+}
+fn query_coq(q: &Query, u: &Uni) -> String {
+    let proj = match &q.proj {
+        Proj::Star => "ProjStar".to_string(),
+        Proj::Vars(vs) => format!("(ProjVars {})", coq::list(vs.iter().map(|v| coq::nat(*v)))),
+        Proj::Count => "ProjCount".to_string(),
+    };
+    format!(
+        "(Query {} {} {} {} {} {})",
+        coq::b(q.distinct),
+        proj,
+        pat_coq(&q.pat, u),
+        coq::list(q.order.iter().map(|(v, d)| format!("({}, {})", coq::nat(*v), coq::b(*d)))),
+        coq::opt(q.offset.map(coq::nat)),
+        coq::opt(q.limit.map(coq::nat))
+    )
+}
+
+fn add_var(v: usize, acc: &mut Vec<usize>) {
+    if !acc.contains(&v) { acc.push(v); }
+}
+fn pat_vars(p: &Pat, acc: &mut Vec<usize>) {
+    match p {
+        Pat::Bgp(tps) => {
+            for t in tps {
+                for q in [&t.0, &t.1, &t.2] {
+                    if let Pos::Var(v) = q { add_var(*v, acc); }
+                }
+            }
+        }
+        Pat::Join(a, b) | Pat::Union(a, b) | Pat::Opt(a, b, _) => {
+            pat_vars(a, acc);
+            pat_vars(b, acc);
+        }
+        Pat::Filter(_, a) => pat_vars(a, acc),
+    }
+}
+fn ex_consts(e: &Ex, acc: &mut Vec<T>) {
+    match e {
+        Ex::Const(t) => acc.push(t.clone()),
+        Ex::Cmp(_, a, b) | Ex::And(a, b) | Ex::Or(a, b) => {
+            ex_consts(a, acc);
+            ex_consts(b, acc);
+        }
+        Ex::Not(a) => ex_consts(a, acc),
+        _ => {}
+    }
+}
+fn pat_consts(p: &Pat, acc: &mut Vec<T>) {
+    match p {
+        Pat::Bgp(tps) => {
+            for t in tps {
+                for q in [&t.0, &t.1, &t.2] {
+                    if let Pos::Const(c) = q { acc.push(c.clone()); }
+                }
+            }
+        }
+        Pat::Join(a, b) | Pat::Union(a, b) => {
+            pat_consts(a, acc);
+            pat_consts(b, acc);
+        }
+        Pat::Opt(a, b, c) => {
+            pat_consts(a, acc);
+            pat_consts(b, acc);
+            if let Some(e) = c { ex_consts(e, acc); }
+        }
+        Pat::Filter(e, a) => {
+            ex_consts(e, acc);
+            pat_consts(a, acc);
+        }
+    }
+}
+fn collect_tps<'a>(p: &'a Pat, acc: &mut Vec<&'a Tp>) {
+    match p {
+        Pat::Bgp(t) => acc.extend(t.iter()),
+        Pat::Join(a, b) | Pat::Union(a, b) | Pat::Opt(a, b, _) => {
+            collect_tps(a, acc);
+            collect_tps(b, acc);
+        }
+        Pat::Filter(_, a) => collect_tps(a, acc),
+    }
+}
+fn count_tps(p: &Pat) -> usize {
+    let mut v = Vec::new();
+    collect_tps(p, &mut v);
+    v.len()
+}
+/// some variable occurs in two triple patterns
+fn shares_var(p: &Pat) -> bool {
+    let mut v = Vec::new();
+    collect_tps(p, &mut v);
+    let mut seen: BTreeMap<usize, usize> = BTreeMap::new();
+    for (i, t) in v.iter().enumerate() {
+        for q in [&t.0, &t.1, &t.2] {
+            if let Pos::Var(x) = q {
+                if let Some(&j) = seen.get(x) {
+                    if j != i { return true; }
+                } else {
+                    seen.insert(*x, i);
+                }
+            }
+        }
+    }
+    false
+}
+
+/// data profiles: "clean" = renderings are injective and literals are plain words or canonical
+/// integers (the implementation agrees with W3C on much of this); "dirty" = everything
+struct Data {
+    subs: Vec<T>,
+    preds: Vec<T>,
+    objs: Vec<T>,
+    triples: Vec<(T, T, T)>,
+    clean: bool,
+}
+fn gen_data(r: &mut Rng, clean: bool) -> Data {
+    let subs: Vec<T> = if clean {
+        vec![T::iri("a"), T::iri("b"), T::iri("c"), T::iri("d"), T::Blank("k".into())]
+    } else {
+        vec![T::iri("a"), T::iri("b"), T::iri("c"), T::Blank("k".into()), T::Blank("m".into())]
+    };
+    let preds = vec![T::iri("p"), T::iri("q"), T::iri("n")];
+    let lits: Vec<T> = if clean {
+        if r.chance(1, 2) {
+            vec![T::plain("x"), T::plain("y"), T::plain("apple"), T::plain("Bob")]
+        } else {
+            vec![T::int("5"), T::int("7"), T::int("12"), T::int("-3"), T::int("0")]
+        }
+    } else {
+        vec![
+            T::plain("x"), T::plain("y"), T::lang("x", "en"), T::lang("x", "de"), T::int("5"), T::int("12"), T::plain("5"),
+            T::int("007"), T::int("+5"), T::typed("x", XSD_DATE), T::plain("http://e/a"), T::plain("_:k"), T::int("-3"), T::plain("10"),
+        ]
+    };
+    let n = match r.below(12) { 0 => 0, 1 => 1, _ => 2 + r.below(9) } as usize;
+    let mut triples: Vec<(T, T, T)> = Vec::new();
+    for _ in 0..n {
+        let s = r.pick(&subs).clone();
+        let p = r.pick(&preds).clone();
+        // p and q link resources, n (and sometimes q) carries literals
+        let o = if p == T::iri("n") || (p == T::iri("q") && r.chance(1, 2)) { r.pick(&lits).clone() } else { r.pick(&subs).clone() };
+        if !triples.contains(&(s.clone(), p.clone(), o.clone())) {
+            triples.push((s, p, o));
+        }
+    }
+    let mut objs = subs.clone();
+    objs.extend(lits);
+    Data { subs, preds, objs, triples, clean }
+}
+
+struct Gen<'a> {
+    r: &'a mut Rng,
+    d: &'a Data,
+    nvars: usize,
+}
+impl<'a> Gen<'a> {
+    fn fresh(&mut self) -> usize {
+        let v = self.nvars;
+        self.nvars += 1;
+        v
+    }
+    /// one position of a triple pattern
+    fn pos(&mut self, used: &mut Vec<usize>, local: &mut Vec<usize>, allow_repvar: bool, cands: &[T], anchor: Option<T>, var_p: u64) -> Pos {
+        if self.r.chance(var_p, 100) {
+            let reuse: Vec<usize> = used.iter().cloned().filter(|v| allow_repvar || !local.contains(v)).collect();
+            let v = if !reuse.is_empty() && self.r.chance(55, 100) { *self.r.pick(&reuse) } else { self.fresh() };
+            local.push(v);
+            add_var(v, used);
+            return Pos::Var(v);
+        }
+        let c = match anchor {
+            Some(t) if self.r.chance(3, 4) => t,
+            _ => self.r.pick(cands).clone(),
+        };
+        // a blank node written in a query is a variable, not a constant: never emitted as one
+        if matches!(c, T::Blank(_)) {
+            let v = self.fresh();
+            local.push(v);
+            add_var(v, used);
+            Pos::Var(v)
+        } else {
+            Pos::Const(c)
+        }
+    }
+    /// one triple pattern; `used` = variables already in scope (reused to force joins)
+    fn tp(&mut self, used: &mut Vec<usize>, allow_repvar: bool) -> Tp {
+        let d = self.d;
+        let anchor = if d.triples.is_empty() { None } else { Some(self.r.pick(&d.triples).clone()) };
+        let mut local: Vec<usize> = Vec::new();
+        let s = self.pos(used, &mut local, allow_repvar, &d.subs, anchor.as_ref().map(|t| t.0.clone()), 75);
+        let p = self.pos(used, &mut local, allow_repvar, &d.preds, anchor.as_ref().map(|t| t.1.clone()), 15);
+        let o = self.pos(used, &mut local, allow_repvar, &d.objs, anchor.as_ref().map(|t| t.2.clone()), 70);
+        Tp(s, p, o)
+    }
+    fn bgp(&mut self, used: &mut Vec<usize>, n: usize, allow_repvar: bool) -> Pat {
+        Pat::Bgp((0..n).map(|_| self.tp(used, allow_repvar)).collect())
+    }
+    fn constant_for_filter(&mut self) -> T {
+        let c = self.r.pick(&self.d.objs).clone();
+        match c {
+            T::Blank(_) => T::iri("a"),
+            x => x,
+        }
+    }
+    fn cmp(&mut self, vars: &[usize], ops: &[&'static str]) -> Ex {
+        let v = *self.r.pick(vars);
+        let op = *self.r.pick(ops);
+        let rhs = if vars.len() > 1 && self.r.chance(1, 4) { Ex::Var(*self.r.pick(vars)) } else { Ex::Const(self.constant_for_filter()) };
+        if self.r.chance(1, 8) { Ex::Cmp(op, Box::new(rhs), Box::new(Ex::Var(v))) } else { Ex::Cmp(op, Box::new(Ex::Var(v)), Box::new(rhs)) }
+    }
+    fn expr(&mut self, vars: &[usize], depth: u32) -> Ex {
+        let all: [&'static str; 6] = ["=", "!=", "<", "<=", ">", ">="];
+        let k = self.r.below(if depth == 0 { 10 } else { 7 });
+        match k {
+            0..=5 => self.cmp(vars, &all),
+            6 => Ex::Cmp("=", Box::new(Ex::Var(*self.r.pick(vars))), Box::new(Ex::Const(self.constant_for_filter()))),
+            7 => Ex::And(Box::new(self.expr(vars, depth + 1)), Box::new(self.expr(vars, depth + 1))),
+            8 => Ex::Or(Box::new(self.expr(vars, depth + 1)), Box::new(self.expr(vars, depth + 1))),
+            _ => {
+                if self.r.chance(1, 2) {
+                    Ex::Not(Box::new(self.expr(vars, depth + 1)))
+                } else {
+                    let b = Ex::Bound(*self.r.pick(vars));
+                    if self.r.chance(1, 2) { Ex::Not(Box::new(b)) } else { b }
+                }
+            }
+        }
+    }
+    /// the same pattern with other constants (a UNION branch with identical columns)
+    fn rename_consts(&mut self, p: &Pat) -> Pat {
+        let d = self.d;
+        match p {
+            Pat::Bgp(tps) => {
+                let mut v = Vec::new();
+                for t in tps {
+                    let mut f = |q: &Pos, cands: &[T]| match q {
+                        Pos::Var(x) => Pos::Var(*x),
+                        Pos::Const(c) => {
+                            let n = self.r.pick(cands).clone();
+                            if matches!(n, T::Blank(_)) { Pos::Const(c.clone()) } else { Pos::Const(n) }
+                        }
+                    };
+                    let a = f(&t.0, &d.subs);
+                    let b = f(&t.1, &d.preds);
+                    let c = f(&t.2, &d.objs);
+                    v.push(Tp(a, b, c));
+                }
+                Pat::Bgp(v)
+            }
+            other => other.clone(),
+        }
+    }
+}
+
+fn vars_of(p: &Pat) -> Vec<usize> {
+    let mut v = Vec::new();
+    pat_vars(p, &mut v);
+    v
+}
+fn pick_vars(r: &mut Rng, vs: &[usize]) -> Vec<usize> {
+    let mut sel: Vec<usize> = Vec::new();
+    for v in vs {
+        if r.chance(3, 5) { sel.push(*v); }
+    }
+    if sel.is_empty() && !vs.is_empty() { sel.push(*r.pick(vs)); }
+    // projection order is free
+    if r.chance(1, 3) { sel.reverse(); }
+    sel
+}
+
+/// a query of one of the shapes of the core
+fn gen_query(r: &mut Rng, d: &Data, shape: &str) -> (Query, usize) {
+    let mut g = Gen { r, d, nvars: 0 };
+    let mut used: Vec<usize> = Vec::new();
+    let allow_repvar = !d.clean && g.r.chance(1, 12);
+    let nt = 1 + g.r.below(3) as usize;
+    let base = g.bgp(&mut used, nt, allow_repvar);
+    let pat = match shape {
+        "bgp" | "distinct" | "order" | "count" => base,
+        "filter" => {
+            let vs = vars_of(&base);
+            if vs.is_empty() { base } else {
+                let e = g.expr(&vs, 0);
+                let f = Pat::Filter(e, Box::new(base));
+                if !d.clean && g.r.chance(1, 10) {
+                    let e2 = g.expr(&vs, 1);
+                    Pat::Filter(e2, Box::new(f))
+                } else {
+                    f
+                }
+            }
+        }
+        "optional" => {
+            // well-designed: the optional part shares variables with the mandatory part only
+            let mut inner_used = used.clone();
+            let nr = 1 + g.r.below(2) as usize;
+            let right = g.bgp(&mut inner_used, nr, false);
+            let cond = if g.r.chance(1, 4) {
+                let vs = if d.clean { vars_of(&right) } else { inner_used.clone() };
+                if vs.is_empty() { None } else { Some(g.expr(&vs, 1)) }
+            } else {
+                None
+            };
+            let mut p = Pat::Opt(Box::new(base), Box::new(right), cond);
+            if g.r.chance(1, 4) {
+                let mut u2 = used.clone();
+                let right2 = g.bgp(&mut u2, 1, false);
+                p = Pat::Opt(Box::new(p), Box::new(right2), None);
+            }
+            if g.r.chance(1, 4) {
+                let vs = vars_of(&p);
+                if !vs.is_empty() {
+                    let e = g.expr(&vs, 1);
+                    p = Pat::Filter(e, Box::new(p));
+                }
+            }
+            p
+        }
+        "union" => {
+            // the second branch: same variables in the same positions (clean), or anything
+            let second = if d.clean || g.r.chance(2, 3) {
+                g.rename_consts(&base)
+            } else {
+                let mut u2: Vec<usize> = if g.r.chance(1, 2) { used.clone() } else { Vec::new() };
+                let n2 = 1 + g.r.below(2) as usize;
+                g.bgp(&mut u2, n2, false)
+            };
+            let mut p = Pat::Union(Box::new(base), Box::new(second));
+            if g.r.chance(1, 4) {
+                let mut u3 = vars_of(&p);
+                let third = g.bgp(&mut u3, 1, false);
+                p = Pat::Join(Box::new(p), Box::new(third));
+            }
+            if g.r.chance(1, 5) {
+                let vs = vars_of(&p);
+                if !vs.is_empty() {
+                    let e = g.expr(&vs, 1);
+                    p = Pat::Filter(e, Box::new(p));
+                }
+            }
+            p
+        }
+        _ => {
+            // "join": a group of two groups
+            let mut u2 = used.clone();
+            let n2 = 1 + g.r.below(2) as usize;
+            let right = g.bgp(&mut u2, n2, false);
+            Pat::Join(Box::new(base), Box::new(right))
+        }
+    };
+    let mut q = Query { distinct: false, proj: Proj::Star, pat, order: vec![], offset: None, limit: None };
+    let vs = vars_of(&q.pat);
+    q.proj = if shape == "count" {
+        Proj::Count
+    } else if vs.is_empty() || g.r.chance(1, 3) {
+        Proj::Star
+    } else {
+        Proj::Vars(pick_vars(g.r, &vs))
+    };
+    if shape == "distinct" || (shape != "count" && g.r.chance(1, 8)) {
+        q.distinct = true;
+        if let Proj::Star = q.proj {
+            if !vs.is_empty() && g.r.chance(2, 3) { q.proj = Proj::Vars(pick_vars(g.r, &vs)); }
+        }
+    }
+    if shape == "order" || (shape != "count" && !vs.is_empty() && g.r.chance(1, 8)) {
+        // a total key: every projected variable is a key (in any order, any direction)
+        let projected: Vec<usize> = match &q.proj { Proj::Vars(v) => v.clone(), _ => vs.clone() };
+        let mut keys: Vec<usize> = Vec::new();
+        for k in &projected { add_var(*k, &mut keys); }
+        if g.r.chance(1, 2) { keys.reverse(); }
+        if g.r.chance(1, 4) {
+            // an extra leading key that is not projected
+            if let Some(x) = vs.iter().find(|x| !projected.contains(x)) { keys.insert(0, *x); }
+        }
+        q.order = keys.into_iter().map(|k| (k, g.r.chance(1, 3))).collect();
+        if !q.order.is_empty() {
+            if g.r.chance(2, 3) { q.limit = Some(g.r.below(6) as usize); }
+            if g.r.chance(1, 3) { q.offset = Some(g.r.below(4) as usize); }
+        }
+    }
+    if shape == "count" && g.r.chance(1, 10) {
+        q.limit = Some(g.r.below(2) as usize);
+    }
+    let n = g.nvars;
+    (q, n)
+}
+
+struct Strs {
+    v: Vec<String>,
+}
+impl Strs {
+    fn idx(&mut self, s: &str) -> usize {
+        if let Some(i) = self.v.iter().position(|x| x == s) {
+            i
+        } else {
+            self.v.push(s.to_string());
+            self.v.len() - 1
+        }
+    }
+}
+
+fn universe_for(d: &Data, extra: &[T]) -> Uni {
+    let mut terms: Vec<T> = Vec::new();
+    for (s, p, o) in &d.triples {
+        for t in [s, p, o] {
+            if !terms.contains(t) { terms.push(t.clone()); }
+        }
+    }
+    for t in extra {
+        if !terms.contains(t) { terms.push(t.clone()); }
+    }
+    Uni { terms }
+}
+
+fn load(d: &Data) -> GrafeoDB {
     let db = GrafeoDB::new_in_memory();
-    let st = db.rdf_store();
-    let i = |s: &str| Term::iri(format!("http://e/{}", s));
-    let ts = vec![
-        Triple::new(i("a"), i("p"), i("b")),
-        Triple::new(i("a"), i("p"), i("c")),
-        Triple::new(i("b"), i("p"), i("c")),
-        Triple::new(i("a"), i("q"), Term::literal("x")),
-        Triple::new(i("b"), i("q"), Term::lang_literal("x", "en")),
-        Triple::new(i("c"), i("q"), Term::typed_literal("5", "http://www.w3.org/2001/XMLSchema#integer")),
-        Triple::new(i("a"), i("n"), Term::typed_literal("7", "http://www.w3.org/2001/XMLSchema#integer")),
-        Triple::new(i("b"), i("n"), Term::typed_literal("10", "http://www.w3.org/2001/XMLSchema#integer")),
-        Triple::new(i("c"), i("n"), Term::literal("5")),
-        Triple::new(Term::blank("z"), i("p"), i("a")),
-        Triple::new(i("a"), i("p"), i("a")),
-        Triple::new(i("d"), i("r"), Term::literal("http://e/a")),
-    ];
-    for t in ts {
-        st.insert(t);
+    for (s, p, o) in &d.triples {
+        db.rdf_store().insert(Triple::new_unchecked(s.to_term(), p.to_term(), o.to_term()));
     }
-    let qs = [
-        "SELECT ?s ?o ?v WHERE { ?s <http://e/p> ?o OPTIONAL { ?o <http://e/q> ?v } }",
-        "SELECT ?s ?o ?v WHERE { ?s <http://e/p> ?o OPTIONAL { ?o <http://e/q> ?v } FILTER(!BOUND(?v)) }",
-        "SELECT ?s ?o ?v WHERE { ?s <http://e/p> ?o OPTIONAL { ?o <http://e/q> ?v } FILTER(BOUND(?v)) }",
-        "SELECT ?s ?o ?v WHERE { ?s <http://e/p> ?o OPTIONAL { ?o <http://e/q> ?v } FILTER(?v = \"x\") }",
-        "SELECT ?s ?o ?v WHERE { ?s <http://e/p> ?o OPTIONAL { ?o <http://e/q> ?v FILTER(?v = \"x\") } }",
-        "SELECT ?s ?o ?v WHERE { ?s <http://e/p> ?o OPTIONAL { ?o <http://e/q> ?v FILTER(?s = <http://e/a>) } }",
-        "SELECT ?s ?o ?v WHERE { ?s <http://e/p> ?o OPTIONAL { ?o <http://e/q> ?v } } ORDER BY ?v ?s ?o",
-        "SELECT ?s ?o ?v WHERE { ?s <http://e/p> ?o OPTIONAL { ?o <http://e/q> ?v } } ORDER BY DESC(?v) ?s DESC(?o)",
-        "SELECT ?s ?o ?v ?w WHERE { ?s <http://e/p> ?o OPTIONAL { ?o <http://e/q> ?v } OPTIONAL { ?s <http://e/n> ?w } }",
-        "SELECT ?s ?o ?v WHERE { ?s <http://e/p> ?o OPTIONAL { ?o <http://e/q> ?v } . ?s <http://e/q> ?v }",
-        "SELECT ?s ?o ?v WHERE { ?s <http://e/p> ?o . ?s <http://e/q> ?v OPTIONAL { ?o <http://e/q> ?v } }",
-        "SELECT * WHERE { ?s <http://e/p> ?o OPTIONAL { ?o <http://e/q> ?v } }",
-        "SELECT * WHERE { { ?s <http://e/p> ?o } UNION { ?s <http://e/q> ?o . ?s <http://e/n> ?w } }",
-        "SELECT * WHERE { { ?s <http://e/q> ?o . ?s <http://e/n> ?w } UNION { ?s <http://e/p> ?o } }",
-        "SELECT ?s ?o WHERE { { ?s <http://e/q> ?o . ?s <http://e/n> ?w } UNION { ?s <http://e/p> ?o } }",
-        "SELECT ?s WHERE { { ?s <http://e/p> ?o } UNION { ?s <http://e/q> ?o } UNION { ?s <http://e/n> ?o } }",
-        "SELECT ?s ?o ?w WHERE { ?s <http://e/n> ?w { ?s <http://e/p> ?o } UNION { ?s <http://e/q> ?o } }",
-        "SELECT ?s ?o ?w WHERE { { ?s <http://e/p> ?o } UNION { ?s <http://e/q> ?o } ?s <http://e/n> ?w }",
-        "SELECT ?s ?o ?w WHERE { { ?s <http://e/p> ?o } { ?s <http://e/n> ?w } }",
-        "SELECT ?s ?v WHERE { ?s <http://e/n> ?v FILTER(?v > 6 || ?s = <http://e/c>) }",
-        "SELECT ?s ?v WHERE { ?s ?p ?v FILTER(?v > 6 || ?s = <http://e/c>) }",
-        "SELECT ?s ?v WHERE { ?s ?p ?v FILTER(?v > 6 && ?s = <http://e/a>) }",
-        "SELECT ?s ?v WHERE { ?s ?p ?v FILTER(!(?v > 6)) }",
-        "SELECT ?s ?v WHERE { FILTER(?v > 6) ?s <http://e/n> ?v }",
-        "SELECT ?s ?v WHERE { ?s <http://e/n> ?v FILTER(?v > 6) FILTER(?v < 9) }",
-        "SELECT ?s ?v WHERE { ?s <http://e/q> ?v FILTER(?v = \"x\"@en) }",
-        "SELECT ?s ?v WHERE { ?s <http://e/q> ?v FILTER(?v < \"y\") }",
-        "SELECT ?s ?v WHERE { ?s ?p ?v FILTER(?v < \"y\") }",
-        "SELECT ?s ?v WHERE { ?s ?p ?v FILTER(?v >= -3) }",
-        "SELECT ?s ?v WHERE { ?s ?p ?v FILTER(?s < ?v) }",
-        "SELECT ?s ?v ?z WHERE { ?s <http://e/n> ?v FILTER(?z > 6) }",
-        "SELECT ?s ?zz WHERE { ?s <http://e/n> ?v }",
-        "SELECT (COUNT(*) AS ?c) WHERE { ?s <http://e/p> ?o OPTIONAL { ?o <http://e/q> ?v } }",
-        "SELECT (COUNT(?v) AS ?c) WHERE { ?s <http://e/p> ?o OPTIONAL { ?o <http://e/q> ?v } }",
-        "SELECT DISTINCT (COUNT(*) AS ?c) WHERE { ?s <http://e/p> ?o }",
-        "SELECT (COUNT(*) AS ?c) WHERE { ?s <http://e/p> ?o } LIMIT 0",
-        "SELECT (COUNT(*) AS ?c) WHERE { { ?s <http://e/p> ?o } UNION { ?s <http://e/q> ?o } }",
-        "SELECT (COUNT(*) AS ?c) WHERE { ?s <http://e/n> ?v FILTER(?v > 6) }",
-        "SELECT ?s ?o WHERE { ?s <http://e/p> ?o } ORDER BY ?s LIMIT 2 OFFSET 4",
-        "SELECT ?s ?o WHERE { ?s <http://e/p> ?o } ORDER BY ?s ?o OFFSET 9",
-        "SELECT ?s ?o WHERE { ?s <http://e/p> ?o } ORDER BY ?o ?s",
-        "SELECT ?o WHERE { ?s <http://e/p> ?o } ORDER BY ?s",
-        "SELECT ?o WHERE { ?s <http://e/p> ?o } ORDER BY ?zz",
-        "SELECT ?s ?v WHERE { ?s <http://e/n> ?v FILTER(?v = \"7\") }",
-        "SELECT ?s ?v WHERE { ?s <http://e/n> ?v FILTER(7 = 7) }",
-        "SELECT ?s ?v WHERE { ?s <http://e/n> ?v FILTER(?v = ?v) }",
-        "SELECT ?s ?v ?t ?w WHERE { ?s <http://e/n> ?v . ?t <http://e/n> ?w FILTER(?v < ?w) }",
-        "SELECT ?s ?v ?t ?w WHERE { ?s <http://e/n> ?v . ?t <http://e/q> ?w FILTER(?v = ?w) }",
-    ];
-    for q in qs {
-        show(&db, q);
+    db
+}
+fn data_show(d: &Data) -> String {
+    d.triples.iter().map(|(s, p, o)| format!("{} {} {}", s.show(), p.show(), o.show())).collect::<Vec<_>>().join(" . ")
+}
+
+fn run_select_case(r: &mut Rng, out: &mut Out, d: &Data, q: &Query, nvars: usize, tag: &str) {
+    let mut consts = Vec::new();
+    pat_consts(&q.pat, &mut consts);
+    let u = universe_for(d, &consts);
+    let text = query_sparql(q, r);
+    let db = load(d);
+    let order: Vec<(i64, i64, i64)> = db.rdf_store().triples().iter().map(|t| u.it_of(t)).collect();
+    let db2 = std::panic::AssertUnwindSafe(&db);
+    let t2 = text.clone();
+    let res = catch(move || db2.execute_sparql(&t2));
+    let mut strs = Strs { v: Vec::new() };
+    let (obs, imp) = match &res {
+        Err(m) => ("QErr".to_string(), format!("PANIC {}", m)),
+        Ok(Err(e)) => ("QErr".to_string(), format!("error {:?}", e).chars().take(160).collect()),
+        Ok(Ok(qr)) => {
+            let cols: Vec<String> = qr
+                .columns
+                .iter()
+                .map(|c| {
+                    if c == "c" {
+                        "1000".to_string()
+                    } else if let Some(n) = c.strip_prefix('v').and_then(|x| x.parse::<usize>().ok()) {
+                        n.to_string()
+                    } else {
+                        "(-1)".to_string()
+                    }
+                })
+                .collect();
+            let rows = coq::list(qr.rows.iter().map(|row| {
+                coq::list(row.iter().map(|v| match v {
+                    Value::Null => "XN".to_string(),
+                    Value::String(s) => format!("XS {}", strs.idx(s.as_ref())),
+                    Value::Int64(n) => format!("XI ({})", n),
+                    other => format!("XS {}", strs.idx(&format!("?{:?}", other))),
+                }))
+            }));
+            (
+                format!("(QRows {} {})", coq::list(cols), rows),
+                format!("cols={:?} rows={}", qr.columns, qr.rows.iter().take(12).map(|r| format!("{:?}", r)).collect::<Vec<_>>().join(" ")),
+            )
+        }
+    };
+    let panicked = res.is_err();
+    let rows_tag = match &res {
+        Ok(Ok(qr)) => match qr.rows.len() { 0 => "0", 1 => "1", 2..=5 => "2-5", 6..=20 => "6-20", _ => "21+" },
+        Ok(Err(_)) => "error",
+        Err(_) => "panic",
+    };
+    let ds = coq::list(d.triples.iter().map(|(s, p, o)| it_coq_i((u.idx(s), u.idx(p), u.idx(o)))));
+    let args = format!(
+        "{} U {} {} {} {} {}",
+        coq::nat(nvars),
+        coq::list(strs.v.iter().map(|s| coq::str_bytes(s))),
+        ds,
+        coq::list(order.into_iter().map(it_coq_i)),
+        query_coq(q, &u),
+        obs
+    );
+    let wrap = |f: &str| format!("let U := {} in {} {}", u.coq(), f, args);
+    let nt = count_tps(&q.pat) >= 2 && shares_var(&q.pat);
+    out.emit(&Case {
+        kind: "select".into(),
+        input: format!("data=[{}] query={}", data_show(d), text),
+        coq: Some(wrap("chk_select")),
+        show: Some(wrap("show_select")),
+        oracle: if panicked { Oracle::Fail } else { Oracle::Na },
+        msg: if panicked { "execute_sparql panicked".into() } else { String::new() },
+        nontrivial: nt,
+        imp,
+        tags: vec![
+            format!("sparql:{}", tag),
+            format!("sparql:data={}", if d.clean { "clean" } else { "dirty" }),
+            format!("sparql:patterns={}", count_tps(&q.pat).min(5)),
+            format!("sparql:triples={}", match d.triples.len() { 0 => "0", 1 => "1", 2..=5 => "2-5", _ => "6-10" }),
+            format!("sparql:rows={}", rows_tag),
+        ],
+        ..Default::default()
+    });
+}
+
+fn case_select(r: &mut Rng, out: &mut Out, i: usize) {
+    let clean = r.chance(3, 5);
+    let d = gen_data(r, clean);
+    let shapes = ["bgp", "join", "filter", "optional", "union", "distinct", "order", "count", "filter", "optional"];
+    let shape = shapes[i % shapes.len()];
+    let (q, n) = gen_query(r, &d, shape);
+    run_select_case(r, out, &d, &q, n, shape);
+}
+
+fn run_update_case(out: &mut Out, d: &Data, ts: &[(T, T, T)], ins: bool, tag: &str) {
+    let mut extra = Vec::new();
+    for (s, p, o) in ts {
+        extra.push(s.clone());
+        extra.push(p.clone());
+        extra.push(o.clone());
     }
-    println!("-- updates");
-    show(&db, "INSERT DATA { <http://e/u> <http://e/p> <http://e/v> . <http://e/u> <http://e/q> \"lit\"@fr . <http://e/u> <http://e/n> \"007\"^^<http://www.w3.org/2001/XMLSchema#integer> . <http://e/u> <http://e/d> \"2020-01-01\"^^<http://www.w3.org/2001/XMLSchema#date> }");
-    for t in st.triples_with_subject(&i("u")) {
-        println!("   stored: {}", t);
+    let mut u = universe_for(d, &extra);
+    let text = format!(
+        "{} DATA {{ {} }}",
+        if ins { "INSERT" } else { "DELETE" },
+        ts.iter().map(|(s, p, o)| format!("{} {} {}", s.sparql(), p.sparql(), o.sparql())).collect::<Vec<_>>().join(" . ")
+    );
+    let db = load(d);
+    let db2 = std::panic::AssertUnwindSafe(&db);
+    let t2 = text.clone();
+    let res = catch(move || db2.execute_sparql(&t2));
+    let ok = matches!(res, Ok(Ok(_)));
+    let after = db.rdf_store().triples();
+    // what the triples became in the store (lexical form kept, datatype/language possibly not)
+    for t in &after {
+        for x in [t.subject(), t.predicate(), t.object()] {
+            let tt = T::from_term(x);
+            if !u.terms.contains(&tt) { u.terms.push(tt); }
+        }
     }
-    show(&db, "INSERT DATA { _:b1 <http://e/p> <http://e/v> }");
-    show(&db, "DELETE DATA { <http://e/u> <http://e/p> <http://e/v> }");
-    show(&db, "DELETE DATA { <http://e/b> <http://e/q> \"x\"@en }");
-    for t in st.triples_with_subject(&i("u")) {
-        println!("   stored: {}", t);
+    let ds = coq::list(d.triples.iter().map(|(s, p, o)| it_coq_i((u.idx(s), u.idx(p), u.idx(o)))));
+    let uts = coq::list(ts.iter().map(|(s, p, o)| it_coq_i((u.idx(s), u.idx(p), u.idx(o)))));
+    let args = format!("{} {} {} {} {} {}", u.coq(), ds, uts, coq::b(ins), coq::b(ok), canon(&u, &after));
+    out.emit(&Case {
+        kind: "update".into(),
+        input: format!("data=[{}] update={}", data_show(d), text),
+        coq: Some(format!("chk_update {}", args)),
+        oracle: if res.is_err() { Oracle::Fail } else { Oracle::Na },
+        msg: if res.is_err() { "execute_sparql panicked".into() } else { String::new() },
+        nontrivial: ts.iter().any(|t| d.triples.contains(t)) || ts.len() > 1,
+        imp: format!("ok={} len={}", ok, after.len()),
+        tags: vec![format!("sparql:update-{}", tag), format!("sparql:data={}", if d.clean { "clean" } else { "dirty" })],
+        ..Default::default()
+    });
+}
+
+fn case_update(r: &mut Rng, out: &mut Out) {
+    let clean = r.chance(3, 5);
+    let d = gen_data(r, clean);
+    let ins = r.chance(1, 2);
+    let n = 1 + r.below(3) as usize;
+    let mut ts = Vec::new();
+    for _ in 0..n {
+        let t = if !d.triples.is_empty() && r.chance(1, 2) {
+            r.pick(&d.triples).clone()
+        } else {
+            (r.pick(&d.subs).clone(), r.pick(&d.preds).clone(), r.pick(&d.objs).clone())
+        };
+        // blank nodes are legal in INSERT DATA only; kept out of the clean profile
+        let has_blank = matches!(t.0, T::Blank(_)) || matches!(t.2, T::Blank(_));
+        if has_blank && (!ins || d.clean) { continue; }
+        ts.push(t);
     }
-    for t in st.triples_with_subject(&i("b")) {
-        println!("   stored b: {}", t);
+    if ts.is_empty() {
+        ts.push((T::iri("a"), T::iri("p"), T::iri("b")));
     }
-    show(&db, "INSERT DATA { <http://e/u> <http://e/p> <http://e/v> } ; INSERT DATA { <http://e/u> <http://e/p> <http://e/w> }");
-    println!("len={}", st.len());
+    run_update_case(out, &d, &ts, ins, if ins { "insert" } else { "delete" });
+}
+
+/// the witnesses of the listed findings (and well-behaved neighbours)
+fn corpus_sparql(r: &mut Rng, out: &mut Out) {
+    let a = T::iri("a");
+    let b = T::iri("b");
+    let c = T::iri("c");
+    let p = T::iri("p");
+    let q = T::iri("q");
+    let n = T::iri("n");
+    let v = |i: usize| Pos::Var(i);
+    let k = |t: &T| Pos::Const(t.clone());
+    let sel = |pat: Pat, proj: Proj| Query { distinct: false, proj, pat, order: vec![], offset: None, limit: None };
+    let data = |ts: Vec<(T, T, T)>, clean: bool| Data {
+        subs: vec![a.clone(), b.clone(), c.clone()],
+        preds: vec![p.clone(), q.clone(), n.clone()],
+        objs: vec![a.clone()],
+        triples: ts,
+        clean,
+    };
+    // S1 DISTINCT
+    let d1 = data(vec![(a.clone(), p.clone(), b.clone()), (a.clone(), p.clone(), c.clone()), (b.clone(), p.clone(), c.clone())], true);
+    let mut q1 = sel(Pat::Bgp(vec![Tp(v(0), k(&p), v(1))]), Proj::Vars(vec![0]));
+    q1.distinct = true;
+    run_select_case(r, out, &d1, &q1, 2, "corpus-S1-distinct");
+    // S2 repeated variable in one triple pattern
+    let d2 = data(vec![(a.clone(), p.clone(), a.clone()), (a.clone(), p.clone(), b.clone())], true);
+    run_select_case(r, out, &d2, &sel(Pat::Bgp(vec![Tp(v(0), k(&p), v(0))]), Proj::Star), 1, "corpus-S2-repvar");
+    // S3 rendering: "x" joins "x"@en; a literal spelled like an IRI joins the IRI
+    let d3 = data(
+        vec![
+            (a.clone(), q.clone(), T::plain("x")),
+            (b.clone(), q.clone(), T::lang("x", "en")),
+            (c.clone(), n.clone(), T::plain("http://e/a")),
+            (a.clone(), p.clone(), b.clone()),
+        ],
+        false,
+    );
+    run_select_case(r, out, &d3, &sel(Pat::Bgp(vec![Tp(v(0), k(&q), v(1)), Tp(v(2), k(&q), v(1))]), Proj::Vars(vec![0, 2])), 3, "corpus-S3-render");
+    run_select_case(r, out, &d3, &sel(Pat::Bgp(vec![Tp(v(0), k(&n), v(1)), Tp(v(1), k(&p), v(2))]), Proj::Star), 3, "corpus-S3-render");
+    // S4 constants: "x"@en in a pattern finds the plain "x"
+    run_select_case(r, out, &d3, &sel(Pat::Bgp(vec![Tp(v(0), k(&q), Pos::Const(T::lang("x", "en")))]), Proj::Star), 1, "corpus-S4-const");
+    // S5 FILTER over strings: ?v = 7 never holds
+    let d5 = data(vec![(a.clone(), n.clone(), T::int("7")), (b.clone(), n.clone(), T::int("12")), (c.clone(), n.clone(), T::int("5"))], true);
+    let f = |op: &'static str, t: T| Pat::Filter(Ex::Cmp(op, Box::new(Ex::Var(1)), Box::new(Ex::Const(t))), Box::new(Pat::Bgp(vec![Tp(v(0), k(&n), v(1))])));
+    run_select_case(r, out, &d5, &sel(f("=", T::int("7")), Proj::Star), 2, "corpus-S5-filter");
+    run_select_case(r, out, &d5, &sel(f(">", T::int("6")), Proj::Star), 2, "corpus-filter-ok");
+    // S6 UNION positional
+    let d6 = data(vec![(a.clone(), p.clone(), b.clone()), (c.clone(), q.clone(), a.clone())], true);
+    run_select_case(
+        r, out, &d6,
+        &sel(Pat::Union(Box::new(Pat::Bgp(vec![Tp(v(0), k(&p), v(1))])), Box::new(Pat::Bgp(vec![Tp(v(1), k(&q), v(0))]))), Proj::Vars(vec![0, 1])),
+        2, "corpus-S6-union",
+    );
+    run_select_case(
+        r, out, &d6,
+        &sel(Pat::Union(Box::new(Pat::Bgp(vec![Tp(v(0), k(&p), v(1))])), Box::new(Pat::Bgp(vec![Tp(v(0), k(&q), v(1))]))), Proj::Vars(vec![0, 1])),
+        2, "corpus-union-ok",
+    );
+    // S7 OPTIONAL: two unmatched rows
+    let d7 = data(
+        vec![(a.clone(), p.clone(), b.clone()), (b.clone(), p.clone(), c.clone()), (c.clone(), p.clone(), a.clone()), (b.clone(), n.clone(), T::int("5"))],
+        true,
+    );
+    let opt = Pat::Opt(Box::new(Pat::Bgp(vec![Tp(v(0), k(&p), v(1))])), Box::new(Pat::Bgp(vec![Tp(v(0), k(&n), v(2))])), None);
+    run_select_case(r, out, &d7, &sel(opt.clone(), Proj::Star), 3, "corpus-S7-null");
+    run_select_case(r, out, &d7, &sel(Pat::Filter(Ex::Not(Box::new(Ex::Bound(2))), Box::new(opt.clone())), Proj::Star), 3, "corpus-S5-bound");
+    // S8 ORDER BY on numbers
+    let mut q8 = sel(Pat::Bgp(vec![Tp(v(0), k(&n), v(1))]), Proj::Vars(vec![1, 0]));
+    q8.order = vec![(1, false), (0, false)];
+    q8.limit = Some(2);
+    run_select_case(r, out, &d5, &q8, 2, "corpus-S8-order");
+    let mut q8b = sel(Pat::Bgp(vec![Tp(v(0), k(&p), v(1))]), Proj::Vars(vec![0, 1]));
+    q8b.order = vec![(0, true), (1, false)];
+    q8b.limit = Some(2);
+    q8b.offset = Some(1);
+    run_select_case(r, out, &d7, &q8b, 2, "corpus-order-ok");
+    // S9 nested FILTER
+    let inner = f(">", T::int("6"));
+    run_select_case(
+        r, out, &d5,
+        &sel(Pat::Filter(Ex::Cmp("<", Box::new(Ex::Var(1)), Box::new(Ex::Const(T::int("9")))), Box::new(inner)), Proj::Star),
+        2, "corpus-S9-refilter",
+    );
+    // COUNT
+    run_select_case(r, out, &d7, &sel(Pat::Bgp(vec![Tp(v(0), k(&p), v(1))]), Proj::Count), 2, "corpus-count");
+    run_select_case(r, out, &d7, &sel(Pat::Bgp(vec![Tp(v(0), k(&q), v(1))]), Proj::Count), 2, "corpus-count");
+    // S10 updates
+    run_update_case(out, &d3, &[(a.clone(), q.clone(), T::lang("z", "fr"))], true, "corpus-S10");
+    run_update_case(out, &d3, &[(b.clone(), q.clone(), T::lang("x", "en"))], false, "corpus-S10");
+    run_update_case(out, &d3, &[(a.clone(), q.clone(), T::int("007"))], true, "corpus-S10");
+    run_update_case(out, &d3, &[(T::Blank("z".into()), p.clone(), a.clone())], true, "corpus-S10");
+    run_update_case(out, &d1, &[(a.clone(), p.clone(), b.clone()), (c.clone(), p.clone(), a.clone())], true, "corpus-ok");
+    run_update_case(out, &d1, &[(a.clone(), p.clone(), b.clone()), (c.clone(), p.clone(), a.clone())], false, "corpus-ok");
+}
+
+fn main() {
+    let a = parse_args();
+    quiet_panics();
+    let mut out = Out::create(a.out.as_deref());
+    let mut r = Rng::new(a.seed);
+    corpus_store(&mut r, &mut out);
+    corpus_sparql(&mut r, &mut out);
+    // a third of the budget for store traces (they are large), the rest for queries and updates
+    for i in 0..a.cases {
+        match i % 6 {
+            0 | 3 => case_store(&mut r, &mut out),
+            5 => case_update(&mut r, &mut out),
+            _ => case_select(&mut r, &mut out, i),
+        }
+    }
+    out.finish();
 }
